@@ -209,6 +209,35 @@ func geoCheck2(op string, v []float64) (bool, string, string) {
 		if b.Within(a) != cont || b.Intersects(a) != inter {
 			return true, "duality / symmetry between circles", fmt.Sprintf("contains=%v within=%v intersects=%v/%v", cont, b.Within(a), inter, b.Intersects(a))
 		}
+	case "circle-collection":
+		// clat, clon, r, plat, plon, n: a collection of n points, one of them the
+		// probe and the others far away, answers as the probe alone does
+		c := geojson.NewCircle(geometry.Point{X: v[1], Y: v[0]}, v[2], 64)
+		probe := geometry.Point{X: v[4], Y: v[3]}
+		n := int(v[5])
+		pts := make([]geometry.Point, 0, n)
+		for i := 0; i < n-1; i++ {
+			la := v[0] + 20 + float64(i%7)
+			if la > 85 {
+				la = v[0] - 20 - float64(i%7)
+			}
+			pts = append(pts, geometry.Point{X: math.Mod(v[1]+200+float64(i), 360) - 180, Y: la})
+		}
+		pts = append(pts[:n/2:n/2], append([]geometry.Point{probe}, pts[n/2:]...)...)
+		want := c.Intersects(geojson.NewPoint(probe))
+		var feats []geojson.Object
+		for _, q := range pts {
+			feats = append(feats, geojson.NewFeature(geojson.NewPoint(q), ""))
+		}
+		far := c.Intersects(geojson.NewMultiPoint(append(append([]geometry.Point{}, pts[:n/2]...), pts[n/2+1:]...)))
+		for ci, coll := range []geojson.Object{geojson.NewMultiPoint(pts), geojson.NewFeatureCollection(feats), geojson.NewGeometryCollection(feats)} {
+			// (the circle is the receiver: what a collection makes of a circle
+			// argument goes through the circle's rectangle, KF-CIRCLE-RECT, and is
+			// C09's / C10's business)
+			if g1 := c.Intersects(coll); g1 != (want || far) {
+				return true, fmt.Sprintf("circle intersects the collection (kind %d, %d children) iff it intersects the probe: %v", ci, n, want), fmt.Sprint(g1)
+			}
+		}
 	case "circle-serial":
 		// clat, clon, r, steps
 		c := geojson.NewCircle(geometry.Point{X: v[1], Y: v[0]}, v[2], int(v[3]))
@@ -278,10 +307,16 @@ func runC14(r *rt.Run) {
 	radii := []float64{0, 1e-9, 1e-4, 0.2, 0.3, 1, 10, 1e3, 1e5, 1e6, 5e6, 1e7, piR - 1, piR}
 	// the top end of the radius range approached but not reached (and the
 	// quarter circumference, where the disc is a hemisphere, from both sides)
+	radii = append(radii, 4500, 4999, 5000, 5001, 999, 1001, 2e4)
 	radii = append(radii, math.Nextafter(piR, 0), piR-1e-6, piR-1e-3, piR-0.1, piR-0.25, piR-0.3, piR-10, piR-1e3,
 		piR/2, math.Nextafter(piR/2, 0), math.Nextafter(piR/2, piR), piR/2-1e-3, piR/2+1e-3, piR/2-0.25, piR/2+0.25)
 	lats := []float64{-90, -89.999, -60, -1e-9, 0, 1e-9, 33, 60, 89.999, 90}
 	lons := []float64{-180, -179.999, -90, 0, 90, 179.999, 180}
+	// the corners of the map: one to three degrees from a pole and from the
+	// antimeridian at once (a disc of a few kilometres is many degrees of
+	// longitude wide there)
+	lats = append(lats, 87.5, 88.6, 88.99, 89.5, -87.5, -88.6, -89.2)
+	lons = append(lons, 177.5, 178.7, 178.99, 179.5, -177.5, -178.7, -179.3)
 	if th {
 		lats = append(lats, -89.999999, -75, -45, -30, -15, 15, 30, 45, 75, 85, 89.999999, 89.99, -89.99, 1e-300)
 		lons = append(lons, -179.9999999, -135, -45, -1e-9, 1e-9, 45, 135, 179.9999999, 179.99, -179.99)
@@ -615,6 +650,26 @@ func runC13(r *rt.Run) {
 								geoRun(w, "circle-circle", c.lat, c.lon, ra, pl, po, rb)
 								rb = math.Nextafter(rb, math.Inf(1))
 							}
+						}
+					}
+					// the probe among 62 / 63 / 64 other, far-away children of a collection
+					// (either side of the child-index threshold), for radii from 5 cm
+					for _, rr := range []float64{0.05, 0.2, 0.28, 0.3, 1} {
+						if dla == 1e-4 && (dlo == 0 || dlo == 1e-4) {
+							for _, frac := range []float64{0.5, 0.99} {
+								ql, qo := sphere.Dest(c.lat, c.lon, rr*frac, 77)
+								for _, n := range []int{63, 64, 65} {
+									w.Trans++
+									geoRun(w, "circle-collection", c.lat, c.lon, rr, ql, qo, float64(n))
+								}
+							}
+						}
+					}
+					for _, n := range []int{63, 64} {
+						if dla >= 0 && dlo >= 0 && d < 3e6 {
+							w.Trans++
+							geoRun(w, "circle-collection", c.lat, c.lon, d*1.001+0.01, pl, po, float64(n))
+							geoRun(w, "circle-collection", c.lat, c.lon, d*0.999, pl, po, float64(n))
 						}
 					}
 					for _, m := range []float64{2 * tol, 0.1, 1e-6 * d, 1e-3 * d} {
